@@ -469,6 +469,21 @@ class Analysis:
                 if base is not None and idx is not None and sz:
                     return base + idx.scale(sz)
             return None
+        if c == "ConditionalOperator" and len(e.kids) == 3:
+            # c ? a : b -- in a state that decides c (the two arms arrive as separate disjuncts) the value is that arm's; when
+            # both arms have the same linear form the condition does not matter
+            P = frozenset(x for x in st if isinstance(x, tuple)) if not _is_disj(st) else None
+            if P is not None and _pure(self.nm(e.kid(0))):
+                t_ok = bool(self._refine(P, e.kid(0), True))
+                f_ok = bool(self._refine(P, e.kid(0), False))
+                if t_ok and not f_ok:
+                    return self.lin(e.kid(1), st)
+                if f_ok and not t_ok:
+                    return self.lin(e.kid(2), st)
+            la, lb = self.lin(e.kid(1), st), self.lin(e.kid(2), st)
+            if la is not None and lb is not None and la.t == lb.t and la.k == lb.k:
+                return la
+            return None
         if c == "UnaryOperator" and e.op == "-":
             inner = self.lin(e.kid(0), st)
             return -inner if inner is not None and not self._is_unsigned(e.ty) else None
